@@ -96,7 +96,16 @@ Definition calls_for (ins : string) (ai : nat) (arg : string) : list (string * s
   let l11 := if Nat.eqb ai 0
              then map (fun k => ("unm", "unm|" ++ arg ++ "|" ++ hx (nth_mod "" unms k) ++ "|" ++ nat_to_string (Nat.modulo k 3))) (seqn 8)
              else [] in
-  (l1 ++ l2 ++ l3 ++ l4 ++ l5 ++ l6 ++ l7 ++ l8 ++ l9 ++ l10 ++ l11)%list.
+  (* sequences with spare capacity: every index up to the capacity and one beyond, under every reading method *)
+  let spare := String.eqb (String.substring (String.length arg - 3) 3 arg) "cap" || String.eqb (String.substring (String.length arg - 3) 3 arg) "emp" in
+  let l12 := if spare then
+               flat_map (fun i : string =>
+                 [("get", "get|" ++ arg ++ "|" ++ path_text [i]); ("len", "len|" ++ arg ++ "|" ++ path_text [i]);
+                  ("cap", "cap|" ++ arg ++ "|" ++ path_text [i]);
+                  ("cmp", "cmp|" ++ arg ++ "|1|" ++ hx "beyond" ++ "|" ++ path_text [i]);
+                  ("set", "set|" ++ arg ++ "|1|v:string|" ++ path_text [i])]) ["0"; "1"; "2"; "3"; "4"; "5"; "6"]
+             else [] in
+  (l1 ++ l2 ++ l3 ++ l4 ++ l5 ++ l6 ++ l7 ++ l8 ++ l9 ++ l10 ++ l11 ++ l12)%list.
 
 Definition arg_class (a : string) : string :=
   if String.prefix "n:" a || String.prefix "npp:" a || String.prefix "nilpp:" a || String.eqb a "nforeign" then "nilptr"
